@@ -15,7 +15,7 @@
     merely wrap it are ordinary values [PV v]). *)
 From Coq Require Import List NArith Bool.
 Import ListNotations.
-From Glb Require Import Model.Relay Proofs.RelayP Check.C15.
+From Glb Require Import Model.Relay Proofs.RelayP Check.C15 Proofs.RelayCheckP.
 Open Scope N_scope.
 
 (** At Info level (threshold <= Info), for every request, every script in scope:
@@ -103,6 +103,16 @@ Theorem C15_needs_total_render : forall render thr rq sc v,
   let r := relay render thr rq sc in escaped r = true /\ relay500 r = false.
 Proof. exact relay_render_partial. Qed.
 Print Assumptions C15_needs_total_render.
+
+(** The executable verdict used by the correspondence check accepts every behaviour of the model
+    at Info level (scripts in scope whose body chunks differ from the marker of http.Error's text):
+    a SPECFAIL is never raised against something the theorems above allow. *)
+Theorem C15_check_accepts_model : forall thr rq sc,
+  enabled thr LInfo = true -> codes_ok sc = true -> no_abort sc -> no_err_chunk sc = true ->
+  let r := relay total_render thr rq sc in
+  verdict_ok (check_case thr rq sc (escaped r) (wire r) (body r) (records r)) = true.
+Proof. exact check_accepts_model. Qed.
+Print Assumptions C15_check_accepts_model.
 
 (** Non-vacuity *)
 Definition ex_rq : req := mkReq 1 7 1 7.
